@@ -372,6 +372,37 @@ func runC18(run *Run, seed int64, l c18List, carriers []string, reclaim time.Dur
 	if !checkAll("end") {
 		return
 	}
+	// the node's own address: the transport starts to report an address outside the allowlist (the host was
+	// re-addressed) and the application calls UpdateNode. Whether the node keeps announcing its old address or
+	// refuses, it must not list itself, announce itself in an event or gossip itself at the disallowed address.
+	for _, class := range []string{"out4", "mapped-out"} {
+		addr := l.addrOf(class)
+		if oracle.allowed(addr) || len(addr) == 0 {
+			continue
+		}
+		ip := net.IP(append([]byte(nil), addr...))
+		rig.V.EP.AdvIP.Store(&ip)
+		rig.V.Del.SetMeta([]byte("re-addressed-" + class))
+		_ = rig.V.ML().UpdateNode(time.Second)
+		Settle(2 * time.Second)
+		run.Cell("own-address", class)
+		run.Eval(1)
+		if !checkAll("own-address-change/" + class) {
+			return
+		}
+		if ln := rig.V.ML().LocalNode(); ln != nil && !oracle.allowed([]byte(ln.Addr)) {
+			fail("member-outside/own-address-change/"+class, "LocalNode() reports the node at %v outside every allowed network %v", ln.Addr, l.CIDRs)
+			return
+		}
+		for _, q := range rig.V.ML().VerifQueued() {
+			var a WAlive
+			if len(q.Msg) > 1 && q.Msg[0] == TAlive && mpDecode(q.Msg[1:], &a) == nil && a.Node == "V" && !oracle.allowed(a.Addr) {
+				fail("gossip-outside/own-address-change/"+class, "the node queued an alive message announcing itself at %v outside every allowed network %v", net.IP(a.Addr), l.CIDRs)
+				return
+			}
+		}
+		rig.V.EP.AdvIP.Store(nil)
+	}
 	rig.C.CheckQuiescent()
 	for _, p := range rig.C.Problems() {
 		out = append(out, &c01Result{p.Key, p.What})
